@@ -43,16 +43,18 @@ def model_check(res, tier):
     # who serves a seek on a streaming sound, and when may the sound stop (StreamSeek.tla): the code's protocol between decoder thread,
     # frame ring, reached_end and the seek slot - every interleaving of decoder passes, output frames and seek writes; the two designs
     # that must fail (thread ends with the last frame = kira before the D27 repair; reached_end left set after a late seek) do fail
-    ss = "SPECIFICATION %s\nCONSTANTS\n  Len0 = %d\n  R = %d\n  Xs = {%s}\n  MaxSeeks = %d\n  Variant = \"%s\"\n%s\nCHECK_DEADLOCK FALSE\n"
-    big = (8, 3, "1, 4, 6", 3) if tier == "quick" else (10, 4, "1, 4, 7, 9", 4)
-    st = tlc_check("StreamSeek.tla", write_cfg("StreamSeek.cfg", ss % (("FairSpec",) + big + ("code", "INVARIANTS TypeOK PropertyHolds SeeksHaveAReader\nPROPERTIES SeekServed ThreadEnds"))),
+    ss = "SPECIFICATION %s\nCONSTANTS\n  Len0 = %d\n  R = %d\n  Xs = {%s}\n  MaxSeeks = %d\n  FadeFrames = 3\n  Variant = \"%s\"\n%s\nCHECK_DEADLOCK FALSE\n"
+    big = (8, 3, "1, 4, 8", 3) if tier == "quick" else (10, 4, "1, 4, 7, 10", 4)
+    st = tlc_check("StreamSeek.tla", write_cfg("StreamSeek.cfg", ss % (("FairSpec",) + big + ("code", "INVARIANTS TypeOK PropertyHolds SeeksHaveAReader\nPROPERTIES SeekServed ThreadEnds SoundEnds"))),
                    workers=4, timeout=1800, tag="c07ss")
     if st["violated"]:
         res.drift.append({"model": "StreamSeek", "violated": st["violated"]})
     res.add_mc("StreamSeek (late seeks: reader, reached_end, stop) len=%d ring=%d seeks<=%d" % (big[0], big[1], big[3]), st)
-    for var, inv in (("exit_at_end", "SeeksHaveAReader"), ("keep_flag", "PropertyHolds")):
+    for var, inv in (("exit_at_end", "SeeksHaveAReader"), ("keep_flag", "PropertyHolds"), ("exit_on_stopping", "SeeksHaveAReader")):
         tlc_check("StreamSeek.tla", write_cfg("StreamSeek_%s.cfg" % var, ss % ("Spec", 6, 3, "1, 4", 2, var, "INVARIANTS " + inv)),
                   workers=2, timeout=600, expect_violation=inv, tag="c07ss")
+    tlc_check("StreamSeek.tla", write_cfg("StreamSeek_idle_on_end_seek.cfg", ss % ("FairSpec", 6, 3, "1, 4, 6", 2, "idle_on_end_seek", "PROPERTIES SoundEnds")),
+              workers=2, timeout=600, expect_violation="temporal", tag="c07ss")
     for wn in ("W_LateSeekServed", "W_StopsAfterLateSeek"):
         tlc_check("StreamSeek.tla", write_cfg("StreamSeek_%s.cfg" % wn, ss % ("Spec", 6, 3, "1, 4", 2, "code", "INVARIANT " + wn)),
                   workers=2, timeout=600, expect_violation=wn, tag="c07ss")
@@ -92,6 +94,18 @@ def generate(tier, rng):
                  "steps": cb(16) + sk(8) + cb(18) + sk(40) + cb(10) + sk(72) + cb(5)})
     scen.append({"mode": "handles", "scene": "T", "ring": 48, "len": 60, "src": "late-seek-after-decoding-ended",
                  "steps": cb(6) + sk(24) + cb(6) + sk(8) + sk(40) + cb(15)})
+    # ... and while the sound is fading out after a stop (Stopping: it is still advancing and its handle still takes seeks)
+    scen.append({"mode": "handles", "scene": "T", "ring": 48, "len": 200, "stop_fade": True, "src": "late-seek-while-stopping",
+                 "steps": cb(40) + sk(8) + cb(16)})
+    scen.append({"mode": "handles", "scene": "T", "ring": 48, "len": 100, "stop_fade": True, "src": "late-seek-while-stopping",
+                 "steps": cb(16) + sk(8) + cb(18) + sk(40) + cb(12)})
+    scen.append({"mode": "handles", "scene": "T", "ring": 48, "len": 250, "stop_fade": True, "src": "seek-while-stopping",
+                 "steps": cb(5) + sk(72) + cb(18) + sk(8) + cb(16)})
+    # a seek to or beyond the end ends the sound - whether the decoder is still decoding when it reads it (long stream, small ring),
+    # has already decoded everything, or was sought back before
+    for ln, pre, x in ((250, 3, 250), (250, 10, 400), (4000, 6, 1000000), (60, 6, 60), (100, 16, 5000)):
+        scen.append({"mode": "handles", "scene": "T", "ring": 48, "len": ln, "src": "seek-to-the-end", "steps": cb(pre) + sk(x) + cb(1)})
+    scen.append({"mode": "handles", "scene": "T", "ring": 48, "len": 100, "src": "seek-to-the-end", "steps": cb(16) + sk(8) + cb(14) + sk(100) + cb(1)})
     # ... also when the decoder is slow to deliver what the late seek asks for and the ring runs dry meanwhile: the sound waits for
     # the audio (it has not reached its end), and the seek is heard once the decoder delivers
     for x, pre in ((8, 40), (24, 44), (96, 38)):
